@@ -1366,6 +1366,9 @@ package compose
 //@   at call tm.submit: ghost supersteps++
 //@   at call 1 r.handleInterrupt: assert[initial_before_reported] @C06 forall(i int :: 0 <= i && i < len(nextTasks) && inList(nextTasks[i].nodeKey, r.interruptBeforeNodes) ==> inList(nextTasks[i].nodeKey, hit))
 //@   at call r.handleInterruptWithSubGraphAndRerunNodes: assert[nothing_outstanding_when_interrupting] @C03 tm.num == 0
+//@   at call r.handleInterrupt: assert[interrupt_built_for_the_form_and_level_of_this_run] @C06,C05 arg5 == isStream && arg6 == isSubGraph && arg7 == checkPointID && arg4 == cm.channels
+//@   at call r.handleInterruptWithSubGraphAndRerunNodes: assert[interrupt_built_for_the_form_and_level_of_this_run_rerun] @C06,C05 arg9 == isStream && arg7 == isSubGraph && arg6 == checkPointID && arg8 == cm
+//@   note a nested run hands its interrupt and checkpoint to its parent, a top-level run writes the checkpoint under the caller's id, and the checkpoint is converted according to the calling form: the interrupt builders must be told the level and form of this very run
 //@   at call 1 r.handleInterruptWithSubGraphAndRerunNodes: assert[every_collected_task_reaches_the_checkpoint] @C03,C05 len(arg4) == len(completedTasks) + len(cpt)
 //@   at call 2 r.handleInterrupt: assert[nothing_outstanding_when_interrupting_plain] @C03 tm.num == 0
 //@   at call 2 r.handleInterruptWithSubGraphAndRerunNodes: assert[tasks_made_ready_before_the_drain_are_saved] @C05 len(arg5) == len(nextTasks) && arr(arg5) == arr(nextTasks) && off(arg5) == off(nextTasks)
